@@ -52,7 +52,7 @@ with open("/tmp/verif_repo.lock", "w") as lock:
     ap = sh(f"git -C /repo apply {dst}/patch.diff")
     assert ap.returncode == 0, ap.stderr
     try:
-        c = sh(f"/verif/check {prop} --tier {tier}")
+        c = sh(f"/verif/check {prop} --tier {tier}", env=dict(os.environ, VERIF_LOCK_HELD="1"))
         out = c.stdout
         meta["check_exit"] = c.returncode
         meta["check_violation_lines"] = [l for l in out.splitlines() if l.startswith("VIOLATION") or l.startswith("  signature")][:8]
